@@ -68,3 +68,14 @@ pub fn static_types() -> Vec<(&'static str, Ty, StaticFn)> {
     ]
 }
 
+
+/// F26 witness (DESIGN §6), executed in a child process of its own: one BigDecimal with a huge exponent as the only
+/// element of a hash set. Returns what the decoder answered (if the process is still there to tell).
+pub fn f26_witness() -> String {
+    let text = "1e9000000000000000000";
+    let mut bytes = vec![2u8, (text.len() as u8) << 1];
+    bytes.extend_from_slice(text.as_bytes());
+    let plain = desert::deserialize::<Vec<bigdecimal::BigDecimal>>(&bytes).map(|v| v.len());
+    let set = desert::deserialize::<std::collections::HashSet<bigdecimal::BigDecimal>>(&bytes).map(|v| v.len());
+    format!("Vec: {plain:?}; HashSet: {set:?}")
+}
